@@ -86,7 +86,9 @@ PROPS = {
     "C02": {
         "invariants": ["C02"],
         "mc": {"quick": [mc("Core-addr-2x2", must_cover=SUBMIT), mc("Core-sc-2x2", kinds="InitKindsSC", must_cover=SUBMITW)],
-               "thorough": [mc("Core-addr-2x3", maxops=3), mc("Core-sc-2x3", maxops=3, kinds="InitKindsSC")]},
+               "thorough": [mc("Core-addr-2x3", maxops=3), mc("Core-sc-2x3", maxops=3, kinds="InitKindsSC"),
+                            mc("Core-abandon-2x2", ops=("send", "call", "ping", "stop", "abandon"), cfgs="CfgsB1", must_cover=("Abandon",)),
+                            mc("Core-abandon-sc-2x2", ops=("send", "call", "drop", "abandon"), cfgs="CfgsB1", kinds="InitKindsSC", must_cover=("Abandon",))]},
         "gen": {"quick": [gen("g-sc-b1-2x2", "Main_SC_B1", ops=("send", "call", "drop"))], "thorough": [gen("g-sc-b1-2x2", "Main_SC_B1", ops=("send", "call", "drop"), scripts="ScriptsCore"), gen("g-cancel-2x2", "Main_Addr2_B1", ops=("send", "call"), faults=("cancel",), maxfaults=1)]},
         "families": [("core", 200, 2000), ("life", 100, 1000), ("fail", 100, 1000)],
         "relevant": r'"op":"call"', "relevant_min": 1,
@@ -236,7 +238,8 @@ PROPS = {
     "C17": {
         "invariants": ["C17", "C04_AnnounceAfter"],
         "mc": {"quick": [mc("Own-2x3", maxops=3, ops=OWNOPS, scripts="ScriptsPlain", cfgs="CfgsOwn", kinds="InitKindsOwn", must_cover=("JoinBegin", "JoinReturn", "Detach"))],
-               "thorough": [mc("Own-3x3", maxops=3, clients=C3, ops=OWNOPS, scripts="ScriptsStop", cfgs="CfgsOwn", kinds="InitKindsOwn")]},
+               "thorough": [mc("Own-3x3", maxops=3, clients=C3, ops=OWNOPS, scripts="ScriptsStop", cfgs="CfgsOwn", kinds="InitKindsOwn"),
+                            mc("Own-abandon-2x3", maxops=3, ops=OWNOPS + ("abandon",), scripts="ScriptsPlain", cfgs="CfgsOwn", kinds="InitKindsOwn", must_cover=("Abandon",))]},
         "gen": {"quick": [gen("g-own-2x2", "Main_Own_B1", ops=("send", "join", "consume", "stop", "detach"))], "thorough": [gen("g-own-2x3", "Main_Own_B1", maxops=3, ops=("send", "join", "consume", "stop", "detach", "drop"))]},
         "families": [("life", 250, 2500), ("fail", 100, 1000)],
         "relevant": r'"op":"(join|consume|consume_sync|detach)"', "relevant_min": 1,
